@@ -221,7 +221,7 @@ def handle (args : List String) : String :=
       | "w" => some (.word []) | "b" => some .binary | "u" => some .unary
       | "p" => some .paren | "f" => some .flags | _ => none
     match e with
-    | some e => (match assocIndex e with | .ok _ => "ok" | .panic => "panic")
+    | some e => (match assocIndex e with | .ok true => "ok" | .ok false => "error" | .panic => "panic")
     | none => "bad-op"
   | _ => "bad-op"
 
